@@ -185,6 +185,46 @@ def find_memos(prog, cls, own_only=True, block_switch=False):
                 m_.helper = helper
                 m_.stored = set(computed)
                 out.append(m_)
+        # (F) a fill guarded through a relay flag: `if self.F: ...; G = True  else: G = False`, later `if not G: <compute
+        # self.X>; self.F = True`.  F says 'X is there' both for an X the user supplied and for one this method derived from
+        # other inputs; after the first call the derived X is taken for a supplied one and never derived again.
+        for iff in [n for n in walk_no_nested(fn.node) if isinstance(n, ast.If)]:
+            flag = _self_attr(iff.test)
+            if flag is None or not iff.orelse:
+                continue
+
+            def relay_sets(stmts, val):
+                r = set()
+                for st_ in stmts:
+                    for x_ in ast.walk(st_):
+                        if isinstance(x_, ast.Assign) and isinstance(x_.value, ast.Constant) and x_.value.value is val:
+                            for t_ in x_.targets:
+                                r.add(_self_attr(t_) and "self." + _self_attr(t_) or (t_.id if isinstance(t_, ast.Name) else None))
+                return r - {None}
+            relays = relay_sets(iff.body, True) & relay_sets(iff.orelse, False)
+            relays.discard("self." + flag)
+            blk = _block_of(pm, iff)
+            if not relays or blk is None:
+                continue
+            for iff2 in blk[blk.index(iff) + 1:]:
+                if not (isinstance(iff2, ast.If) and isinstance(iff2.test, ast.UnaryOp) and isinstance(iff2.test.op, ast.Not)):
+                    continue
+                g_ = iff2.test.operand
+                gname = ("self." + _self_attr(g_)) if _self_attr(g_) else (g_.id if isinstance(g_, ast.Name) else None)
+                if gname not in relays:
+                    continue
+                sets_flag = [x_ for st_ in iff2.body for x_ in ast.walk(st_) if isinstance(x_, ast.Assign)
+                             and any(_self_attr(t_) == flag for t_ in x_.targets)
+                             and isinstance(x_.value, ast.Constant) and x_.value.value is True]
+                stored = [a for a, node in attrs_written(ast.Module(body=list(iff2.body), type_ignores=[])).items()
+                          if a != flag and ("self." + a) not in relays and isinstance(node, ast.Assign)
+                          and not isinstance(node.value, ast.Constant)]
+                if sets_flag and stored:
+                    m_ = Memo(fn, stored[0], iff, list(iff2.body), "lazy-fill", True)
+                    m_.flag_attrs = {flag} | {r_[5:] for r_ in relays if r_.startswith("self.")}
+                    m_.stored = set(stored)
+                    m_.relay = True
+                    out.append(m_)
         if not written:
             continue
         for iff in [n for n in walk_no_nested(fn.node) if isinstance(n, ast.If)]:
